@@ -60,9 +60,9 @@ func init() {
 	fsNote := "file-system faults and kills are a model; realising them natively needs ptrace fault injection"
 	c10 := &Property{ID: "C10", Pkgs: []string{"client/setec"}, Bounds: map[string]string{"declared names": "2 / 3 (duplicates, empty allowed)", "service failures": "at most 2 / 4 failing requests per construction", "cache": "none, unreadable, empty, any document over the names (valid or not), arbitrary bytes"}}
 	c10.Harnesses = append(c10.Harnesses,
-		ch("verifHarnessC10NewStoreNoCache", map[string]int{"names": 2, "fails": 2}, map[string]int{"names": 3, "fails": 3}, []string{"end-error", "end-ok"}, "NewStore without cache: declared names (duplicates, empty), failing/recovering service, ending context, back-off"),
-		ch("verifHarnessC10NewStoreDoc", map[string]int{"names": 2, "fails": 1}, map[string]int{"names": 2, "fails": 2}, []string{"end-error", "end-ok", "end-from-cache"}, "NewStore with a cache document (valid or not, partial or complete)"),
-		ch("verifHarnessC10NewStoreBadCache", map[string]int{"fails": 1}, map[string]int{"fails": 2}, []string{"end-error", "end-ok"}, "NewStore with an unreadable, empty or arbitrary-bytes cache"),
+		ch("verifHarnessC10NewStoreNoCache", map[string]int{"names": 2, "fails": 2, "entrykinds": 2}, map[string]int{"names": 3, "fails": 3, "entrykinds": 3}, []string{"end-error", "end-ok"}, "NewStore without cache: declared names (duplicates, empty), failing/recovering service, ending context, back-off"),
+		ch("verifHarnessC10NewStoreDoc", map[string]int{"names": 2, "fails": 1, "entrykinds": 2}, map[string]int{"names": 2, "fails": 2, "entrykinds": 3}, []string{"end-error", "end-ok", "end-from-cache"}, "NewStore with a cache document (valid or not, partial or complete)"),
+		ch("verifHarnessC10NewStoreBadCache", map[string]int{"fails": 1, "entrykinds": 2}, map[string]int{"fails": 2, "entrykinds": 3}, []string{"end-error", "end-ok"}, "NewStore with an unreadable, empty or arbitrary-bytes cache"),
 		ch("verifHarnessC10Misconfig", map[string]int{}, nil, []string{"end"}, "misconfiguration is an error without any request"),
 		ch("verifHarnessC10FileClient", map[string]int{}, nil, []string{"end-present", "end-absent"}, "file-backed client: a missing declared secret fails at once, no waiting"))
 	propRegistry = append(propRegistry, c10)
@@ -74,8 +74,8 @@ func init() {
 	h2.NoNative = fsNote
 	c13.Harnesses = append(c13.Harnesses, h1, h2,
 		ch("verifHarnessC13ShutdownFlush", map[string]int{"names": 2}, map[string]int{"names": 3}, []string{"end"}, "the poller flushes the whole active set on shutdown"),
-		ch("verifHarnessC10NewStoreDoc", map[string]int{"names": 2, "fails": 1}, map[string]int{"names": 2, "fails": 2}, []string{"end-ok", "end-from-cache"}, "flush after initial fetch; restart from any cache document without contacting the service"),
-		ch("verifHarnessC10NewStoreBadCache", map[string]int{"fails": 1}, map[string]int{"fails": 2}, []string{"end-ok"}, "unreadable, empty or arbitrary cache contents are never fatal"),
+		ch("verifHarnessC10NewStoreDoc", map[string]int{"names": 2, "fails": 1, "entrykinds": 2}, map[string]int{"names": 2, "fails": 2, "entrykinds": 3}, []string{"end-ok", "end-from-cache"}, "flush after initial fetch; restart from any cache document without contacting the service"),
+		ch("verifHarnessC10NewStoreBadCache", map[string]int{"fails": 1, "entrykinds": 2}, map[string]int{"fails": 2, "entrykinds": 3}, []string{"end-ok"}, "unreadable, empty or arbitrary cache contents are never fatal"),
 		ch("verifHarnessC11Refresh", map[string]int{"names": 2}, map[string]int{"names": 3}, []string{"end-ok"}, "flush after a poll that changed something holds the post-state"),
 		ch("verifHarnessC16Lookup", map[string]int{"names": 2}, map[string]int{"names": 3}, []string{"end-installed"}, "flush after a lookup install"))
 	propRegistry = append(propRegistry, c13)
